@@ -11,7 +11,7 @@ import ast
 import re
 
 from .core import AnalysisError, U
-from .guards import Flow, Interp, Unknown
+from .guards import Flow, ForkInterp, Interp, Unknown, _NeedDecision
 
 
 class Match(dict):
@@ -19,7 +19,9 @@ class Match(dict):
 
 
 class ObjRunner:
-    def __init__(self, prog, rel, extra_hook=None, depth_limit=30):
+    def __init__(self, prog, rel, extra_hook=None, depth_limit=30, fork=False):
+        self.fork = fork      # undetermined `if` tests (symbolic values) are explored both ways: see explore()
+        self.oracle = {}
         self.prog = prog
         self.rel = rel
         self.extra_hook = extra_hook
@@ -27,6 +29,27 @@ class ObjRunner:
         self.depth_limit = depth_limit
         self.calls = []  # (class, method) executed, for the evidence
         self.module_state = {}
+
+    def explore(self, thunk, limit=64):
+        """Run thunk() once per path through the undetermined tests it meets; thunk must build its own fresh model state.
+        Yields (decisions, result)."""
+        work = [{}]
+        n = 0
+        while work:
+            n += 1
+            if n > limit:
+                raise AnalysisError(f"object model: more than {limit} paths through undetermined tests")
+            dec = work.pop()
+            self.oracle.clear()
+            self.oracle.update(dec)
+            self.module_state = {}
+            try:
+                res = thunk()
+            except _NeedDecision as nd:
+                work.append({**dec, nd.key: True})
+                work.append({**dec, nd.key: False})
+                continue
+            yield dict(dec), res
 
     # ------------------------------------------------------------------ classes
     def cinfo(self, name):
@@ -119,7 +142,8 @@ class ObjRunner:
             # module-level constants of the callee's module: one object per runner, so state kept in them is shared between calls
             for k, v in self.module_env(f.module.rel).items():
                 env.setdefault(k, v)
-            it = Interp(env, call_hook=self.hook, loop_hook=self.loop, strict=True)
+            it = (ForkInterp(env, self.oracle, call_hook=self.hook, loop_hook=self.loop, strict=True) if self.fork
+                  else Interp(env, call_hook=self.hook, loop_hook=self.loop, strict=True))
             try:
                 it.run(node.body)
             except Flow as fl:
